@@ -83,6 +83,18 @@ fn adversarial(rng: &mut Rng, kind: usize) -> (String, Vec<u8>) {
 }
 
 pub fn gen_case(rng: &mut Rng, idx: usize, thorough: bool) -> Value {
+    if idx % 8 == 7 {
+        // tie of the Lean model of Decimal::checked_lcm (theorem lcm_no_overflow_or_error) to the code
+        let coefs: [u64; 14] = [0, 1, 2, 3, 5, 7, 25, 999, 65535, 65536, 1 << 31, 4294967295, 1410065408, 123456789];
+        let n = if thorough { 600 } else { 200 };
+        let mut v = vec![];
+        for _ in 0..n {
+            let c = |rng: &mut Rng| if rng.chance(1, 4) { rng.next() % (1 << 32) } else { coefs[rng.below(coefs.len())] };
+            let e = |rng: &mut Rng| if rng.chance(1, 3) { rng.below(5) as u64 } else { rng.below(14) as u64 };
+            v.push(json!([c(rng), e(rng), c(rng), e(rng)]));
+        }
+        return json!({"lcm": v});
+    }
     // one case = one batch of inputs for one child process
     let n = if thorough { 60 } else { 25 };
     let mut inputs = vec![];
@@ -247,7 +259,22 @@ fn run_child(exe: &str, batch: &Value, tmpdir: &str, name: &str, secs: u64) -> C
     }
 }
 
-pub fn run_case(ctx: &Ctx, case: &Value, tag: usize, rep: &mut Report, _mb: &mut ModelBatch) {
+pub fn run_case(ctx: &Ctx, case: &Value, tag: usize, rep: &mut Report, mb: &mut ModelBatch) {
+    if let Some(list) = case["lcm"].as_array() {
+        use llguidance::verif::Decimal;
+        for q in list {
+            let g = |i: usize| q[i].as_u64().unwrap() as u32;
+            let (a, b) = (Decimal { coef: g(0), exp: g(1) }, Decimal { coef: g(2), exp: g(3) });
+            rep.evaluations += 1;
+            let r = std::panic::catch_unwind(|| a.checked_lcm(&b));
+            let got = match r { Ok(Some(d)) => format!("some {} {}", d.coef, d.exp), Ok(None) => "none".to_string(), Err(_) => "panic".to_string() };
+            if got == "panic" { rep.fail("oracle", "c20:panic", format!("Decimal::checked_lcm({a:?}, {b:?}) panicked"), json!({"lcm": [q]})); continue; }
+            if got != "none" { rep.nontrivial(format!("lcm|{q}")); }
+            mb.push(format!("num lcm {} {} {} {}", g(0), g(1), g(2), g(3)), got, tag);
+        }
+        rep.sample(json!({"kind": "lcm-tie", "pairs": list.len()}));
+        return;
+    }
     let exe_rel = std::env::current_exe().unwrap().to_string_lossy().to_string();
     let exe_chk = exe_rel.replace("/release/", "/checked/");
     let tmpdir = format!("{}/../harness/target/tmp-c20", ctx.data_dir);
